@@ -256,6 +256,15 @@ func (w *world) genMsg(r *vhlib.Rand) protocol.Message {
 			return protocol.Piece{Index: i, Begin: b, Data: data}
 		}
 	}
+	// targeted: a block that was queued, unsent, when the remote choked us
+	if st.HasInfo && len(w.stale) > 0 && r.Chance(12) {
+		c := w.stale[r.Intn(len(w.stale))]
+		i, b, data := w.chunkData(c)
+		if r.Chance(30) {
+			return protocol.RejectRequest{Index: i, Begin: b, Length: CS}
+		}
+		return protocol.Piece{Index: i, Begin: b, Data: data}
+	}
 	// targeted: metadata for a magnet torrent
 	if !w.t.InfoComplete() && st.MetadataExt != 0 && r.Chance(45) {
 		is := w.t.VerifInfoState()
@@ -612,7 +621,7 @@ func (w *world) sendMsg(m protocol.Message) {
 // torrent's own commands, chosen by the harness in place of the scheduler
 func (w *world) genPev(r *vhlib.Rand) {
 	st := w.p.VerifState()
-	switch r.Intn(12) {
+	switch r.Intn(15) {
 	case 0, 1:
 		w.applyPev(peer.PeerInterested{Interested: r.Chance(75)}, "pev")
 	case 2, 3:
@@ -635,6 +644,21 @@ func (w *world) genPev(r *vhlib.Rand) {
 		}
 	case 7:
 		w.applyPev(peer.PeerGetMetadata{Index: uint32(r.Intn(4))}, "pev")
+	case 9, 10:
+		if st.HasInfo {
+			w.tick()
+		}
+	case 11:
+		// the torrent cancels a block that was queued, unsent, when the remote choked us
+		if len(w.stale) > 0 && st.HasInfo {
+			c := w.stale[r.Intn(len(w.stale))]
+			if r.Bool() {
+				w.applyPev(peer.PeerCancel{Chunk: c}, "pev")
+			} else {
+				i, _ := peer.VerifFromChunk(w.p, c)
+				w.applyPev(peer.PeerCancelPiece{Index: i}, "pev")
+			}
+		}
 	case 8:
 		// rare commands that end the peer
 		if !st.HasInfo && r.Chance(6) {
@@ -705,7 +729,7 @@ func (w *world) prelude(r *vhlib.Rand) {
 	if w.dead {
 		return
 	}
-	switch r.Intn(8) {
+	switch r.Intn(10) {
 	case 0: // uploader: interested remote, unchoked by us
 		w.sendMsg(protocol.Interested{})
 		w.pumpPending()
@@ -763,7 +787,14 @@ func (w *world) prelude(r *vhlib.Rand) {
 				w.sendMsg(protocol.Bitfield{Bitfield: bs})
 			}
 			for i, n := 0, 1+r.Intn(2); i < n && !w.dead; i++ {
-				w.sendMsg(protocol.AllowedFast{Index: uint32(r.Intn(w.cfg.np))})
+				ix := uint32(r.Intn(w.cfg.np))
+				if r.Chance(25) {
+					ix = w.idx(r)
+				}
+				w.sendMsg(protocol.AllowedFast{Index: ix})
+			}
+			if !w.dead && r.Chance(40) {
+				w.tick()
 			}
 			if !w.dead && r.Bool() {
 				w.sendMsg(protocol.Unchoke{})
@@ -782,6 +813,55 @@ func (w *world) prelude(r *vhlib.Rand) {
 				w.emit("sched "+t[1:len(t)-1], "ok")
 				vhlib.Recover(func() { tor.VerifRequest(w.t, w.p, cs) })
 				w.pumpPending()
+			}
+		}
+	case 8: // Fast peer, unchoked, more blocks requested than the pipeline takes; then Choke
+		// and something about a block that was still queued
+		if w.p.VerifState().HasInfo && w.cfg.fast && w.nchunks() >= 4 {
+			bs := make([]byte, (w.cfg.np+7)/8)
+			for i := 0; i < w.cfg.np; i++ {
+				bs[i/8] |= 1 << (7 - uint(i%8))
+			}
+			w.sendMsg(protocol.Bitfield{Bitfield: bs})
+			if !w.dead {
+				w.sendMsg(protocol.Unchoke{})
+				w.pumpPending()
+			}
+			if !w.dead {
+				seen := map[uint32]bool{}
+				var cs []uint32
+				for i, n := 0, 3+r.Intn(4); i < n; i++ {
+					c := uint32(r.Intn(w.nchunks()))
+					if !seen[c] {
+						seen[c] = true
+						cs = append(cs, c)
+					}
+				}
+				t := u32s(cs)
+				w.emit("sched "+t[1:len(t)-1], "ok")
+				vhlib.Recover(func() { tor.VerifRequest(w.t, w.p, cs) })
+				w.pumpPending()
+			}
+			if !w.dead && r.Chance(80) {
+				w.sendMsg(protocol.Choke{})
+				w.pumpPending()
+				for i, n := 0, 1+r.Intn(3); i < n && !w.dead && len(w.stale) > 0; i++ {
+					c := w.stale[r.Intn(len(w.stale))]
+					ix, b, data := w.chunkData(c)
+					switch r.Intn(4) {
+					case 0:
+						w.sendMsg(protocol.Piece{Index: ix, Begin: b, Data: data})
+					case 1:
+						w.applyPev(peer.PeerCancel{Chunk: c}, "pev")
+					case 2:
+						w.applyPev(peer.PeerCancelPiece{Index: ix}, "pev")
+					default:
+						w.sendMsg(protocol.RejectRequest{Index: ix, Begin: b, Length: CS})
+					}
+					if !w.dead {
+						w.pumpPending()
+					}
+				}
 			}
 		}
 	case 3: // extension handshake first
@@ -807,6 +887,9 @@ func oneCase(c *vhlib.Ctx, cfg caseCfg, r *vhlib.Rand, script []string) {
 		w.replayOps(script)
 	} else {
 		w.prelude(r)
+		if cfg.burst > 0 && !w.dead {
+			w.burst(r, cfg.burst)
+		}
 		steps := 5 + r.Intn(36)
 		for i := 0; i < steps && !w.dead; i++ {
 			switch {
@@ -877,6 +960,55 @@ func (w *world) synthetic(r *vhlib.Rand) {
 	}
 }
 
+// burst: the torrent does not read its event channel while one peer sends a long run of
+// event-producing messages (the channel, then the peer's overflow list fill up); only then
+// does it catch up.  Handling a message must terminate regardless of the torrent's progress.
+func (w *world) burst(r *vhlib.Rand, n int) {
+	w.hold()
+	next := uint32(0)
+	for i := 0; i < n && !w.dead; i++ {
+		var m protocol.Message
+		switch r.Intn(12) {
+		case 0:
+			m = protocol.Interested{}
+		case 1:
+			m = protocol.NotInterested{}
+		case 2:
+			m = protocol.Unchoke{}
+		case 3:
+			if r.Bool() {
+				m = protocol.Choke{}
+			} else {
+				m = protocol.KeepAlive{}
+			}
+		case 4:
+			bs := r.Bytes(1 + r.Intn(3))
+			if w.p.VerifState().HasInfo {
+				bs = make([]byte, (w.cfg.np+7)/8)
+				for j := 0; j < w.cfg.np; j++ {
+					if r.Bool() {
+						bs[j/8] |= 1 << (7 - uint(j%8))
+					}
+				}
+			}
+			m = protocol.Bitfield{Bitfield: bs}
+		case 5:
+			m = protocol.ExtendedPex{Subtype: 1, Added: []pex.Peer{wirecanon.RandPeer(r, false)}}
+		default:
+			// a Have with an index not announced yet
+			if w.p.VerifState().HasInfo {
+				m = protocol.Have{Index: uint32(r.Intn(w.cfg.np))}
+			} else {
+				m = protocol.Have{Index: next}
+				next += uint32(1 + r.Intn(3))
+			}
+		}
+		w.sendMsg(m)
+	}
+	w.release()
+	w.pumpPending()
+}
+
 func generate(c *vhlib.Ctx) {
 	r := c.R
 	for i := 0; i < c.N; i++ {
@@ -885,6 +1017,13 @@ func generate(c *vhlib.Ctx) {
 			break
 		}
 		cfg := randCfg(r, i)
+		if i == 5 || i == c.N/2 {
+			// one burst with the metadata unknown (distinct Haves), one with it known
+			cfg.burst = 2200
+			cfg.evcap = 512
+			cfg.magnet = i == 5
+			cfg.badInfo = false
+		}
 		oneCase(c, cfg, r, nil)
 	}
 }
@@ -942,6 +1081,9 @@ func (w *world) replayOps(lines []string) {
 				w.applyPev(pe, "pev")
 				w.pumpPending()
 			}
+		case "tick":
+			w.tick()
+			w.pumpPending()
 		case "sched":
 			var cs []uint32
 			for _, s := range strings.Split(f[1], ",") {
@@ -960,6 +1102,11 @@ func (w *world) replayOps(lines []string) {
 					w.setLevel(k)
 					w.emit(fmt.Sprintf("env setw %d", w.level), "ok")
 				}
+			case "hold":
+				w.hold()
+			case "release":
+				w.release()
+				w.pumpPending()
 			case "rate":
 				w.fastRate = f[2] == "1"
 				w.emit(l, "ok")
